@@ -1,8 +1,205 @@
-import ArchSim.Model.Sim
+/-
+C13 (RISC-V part) — lifecycle of a `RiscvSimulation` in both modes (single-stage `five = false`,
+five-stage `five = true`): done is stable under `step`/`run`, `step()` returns `not is_done()`,
+`run()` is `step()` iterated (and does not depend on the fuel of the model once it has finished),
+a program without instructions is done immediately, and `load_program` after any earlier loads
+(successful or failed) equals the load alone — in particular on a simulation that has not started
+it equals the load into a new simulation. The TOY part is `ArchSim/Props/C13Toy.lean`.
+
+Property theorems and non-vacuity examples only; definitions (`stepS`, `iterStep`, `Call`, `calls`,
+`fresh`, `loads`, `DirectReach`, `resetSt`, `loadFrom`; the example simulations `nopSim`, `exitSim`,
+`exitFull`) and lemmas are in
+`ArchSim/Lemmas/C13Life.lean` and `ArchSim/Lemmas/C13Load.lean`.
+-/
+import ArchSim.Lemmas.C13Life
+import ArchSim.Lemmas.C13Load
+
 namespace ArchSim.Props.C13
 open ArchSim ArchSim.Sim
+
+/-! ### 1. done is stable -/
+
 /-- Once a RISC-V simulation reports done, `step()` changes nothing and returns `False`. -/
 theorem done_step_noop (s : RSim) (h : isDone s = true) :
     (step s).sim = s ∧ (step s).ret = false ∧ (step s).fault = none := by
   simp [step, h]
+
+/-- Once a simulation (either mode, any state) reports done: `step()` leaves the whole simulation
+    object unchanged (architectural state, counters, output, latches, `has_started`), returns
+    `False` and does not raise; `run()` with any fuel leaves it unchanged, takes 0 steps and does
+    not raise; hence any sequence of `step`/`run` calls leaves it unchanged and it stays done. -/
+theorem done_stable (s : RSim) (h : isDone s = true) :
+    ((step s).sim = s ∧ (step s).ret = false ∧ (step s).fault = none) ∧
+    (∀ fuel, run fuel s = (s, 0, none)) ∧
+    (∀ cs : List Call, calls s cs = s ∧ isDone (calls s cs) = true) := by
+  refine ⟨by simp [step_done h], run_done h, fun cs => ?_⟩
+  rw [calls_done h cs]
+  exact ⟨rfl, h⟩
+
+/-- Non-vacuity: `nop` is done after one step (single-stage) resp. five steps (five-stage), and
+    was not done before. -/
+example : isDone (nopSim false) = false ∧ isDone (run 5 (nopSim false)).1 = true ∧
+          isDone (nopSim true) = false ∧ isDone (run 9 (nopSim true)).1 = true := by decide
+
+/-- Stability of done after an exit ecall (five-stage mode): whatever is still in the pipeline
+    registers — younger instructions fetched behind the ecall included — a state with an exit code
+    is done, every `step`/`run` call leaves it unchanged, and it keeps its exit code. -/
+theorem exit_done_stable (s : RSim) (c : Int) (h5 : s.five = true) (hx : s.p.st.exitCode = some c) :
+    isDone s = true ∧ (step s).sim = s ∧ (step s).ret = false ∧ (step s).fault = none ∧
+    (∀ fuel, run fuel s = (s, 0, none)) ∧
+    (∀ cs : List Call, calls s cs = s ∧ (calls s cs).p.st.exitCode = some c) := by
+  have hd : isDone s = true := by simp [isDone, h5, Pipe.isDone, hx]
+  obtain ⟨⟨h1, h2, h3⟩, h4, h6⟩ := done_stable s hd
+  refine ⟨hd, h1, h2, h3, h4, fun cs => ?_⟩
+  rw [(h6 cs).1]
+  exact ⟨rfl, hx⟩
+
+/-- The same in single-stage mode. -/
+theorem exit_done_stable_single (s : RSim) (c : Int) (h5 : s.five = false) (hx : s.p.st.exitCode = some c) :
+    isDone s = true ∧ (step s).sim = s ∧ (step s).ret = false ∧ (step s).fault = none ∧
+    (∀ fuel, run fuel s = (s, 0, none)) ∧
+    (∀ cs : List Call, calls s cs = s ∧ (calls s cs).p.st.exitCode = some c) := by
+  have hd : isDone s = true := by simp [isDone, h5, Rv.singleDone, hx]
+  obtain ⟨⟨h1, h2, h3⟩, h4, h6⟩ := done_stable s hd
+  refine ⟨hd, h1, h2, h3, h4, fun cs => ?_⟩
+  rw [(h6 cs).1]
+  exact ⟨rfl, hx⟩
+
+/-- Non-vacuity: `li a7, 10; ecall; nop; nop` ends with exit code 0 although an instruction exists
+    at the final pc (so it is done *only* because of the exit code) in both modes; and `exitFull` is
+    a state with an exit code and all four latches occupied. -/
+example : (run 20 (exitSim true)).1.p.st.exitCode = some 0 ∧
+          ((run 20 (exitSim true)).1.p.st.imem.instrAt (run 20 (exitSim true)).1.p.st.pc).isSome = true ∧
+          (run 20 (exitSim false)).1.p.st.exitCode = some 0 ∧
+          ((run 20 (exitSim false)).1.p.st.imem.instrAt (run 20 (exitSim false)).1.p.st.pc).isSome = true ∧
+          exitFull.five = true ∧ exitFull.p.st.exitCode = some 0 ∧ exitFull.p.l0.isSome = true := by decide
+
+/-! ### 2. the return value of `step()` -/
+
+/-- `step()` returns `not is_done()` evaluated after the step: whenever it does not raise — also
+    when the simulation was already done — it returns false exactly when the simulation is done
+    afterwards. (When the step raises nothing is returned; the model records `false`.) -/
+theorem step_result (s : RSim) :
+    ((step s).fault = none → (step s).ret = !isDone (step s).sim) ∧
+    ((step s).fault = none → ((step s).ret = false ↔ isDone (step s).sim = true)) ∧
+    ((step s).fault ≠ none → (step s).ret = false) := by
+  refine ⟨step_ret s, fun hf => ?_, step_ret_fault s⟩
+  rw [step_ret s hf]
+  cases isDone (step s).sim <;> simp
+
+/-- Both return values occur, in both modes: the first step of the five-stage `nop` returns true,
+    its fifth false; the only step of the single-stage `nop` returns false, the first step of the
+    single-stage `exitSim` true. -/
+example : (step (nopSim true)).ret = true ∧ (step (run 4 (nopSim true)).1).ret = false ∧
+          (step (nopSim false)).ret = false ∧ (step (exitSim false)).ret = true ∧
+          (step (nopSim true)).fault = none ∧ (step (nopSim false)).fault = none := by decide
+
+/-! ### 3. `run()` is `step()` iterated -/
+
+/-- `run()` reaches the state of calling `step()` until done. With fuel `n`:
+    (a) the final state is `iterStep n s` — `step` applied while the simulation is not done and no
+        step has raised;
+    (b) precisely: `run n s` is `step` applied `k ≤ n` times, `k` is the returned step count, none of
+        the states before the `k`-th is done and none of these steps raises, and either no
+        exception is returned, the final state is the `k`-th iterate and it is done unless the fuel
+        ran out (`k = n`), or the `(k+1)`-th step raises, that exception is returned and the final
+        state is the state after the raising step;
+    (c) fuel independence: once a run has ended in a done state without an exception, every larger
+        fuel gives the same state, the same count and no exception (so the fuel of the model is
+        immaterial for terminating programs); the same holds for a run that raised;
+    (d) a second `run()` after a finished one changes nothing. -/
+theorem run_eq_iterate (s : RSim) (n : Nat) :
+    (run n s).1 = iterStep n s ∧
+    (∃ k, k ≤ n ∧ (run n s).2.1 = k ∧
+      (∀ j, j < k → isDone (iter stepS j s) = false ∧ (step (iter stepS j s)).fault = none) ∧
+      (((run n s).2.2 = none ∧ (run n s).1 = iter stepS k s ∧ (k < n → isDone (iter stepS k s) = true)) ∨
+       (∃ f, (run n s).2.2 = some f ∧ k < n ∧ isDone (iter stepS k s) = false ∧
+          (step (iter stepS k s)).fault = some f ∧ (run n s).1 = iter stepS (k + 1) s))) ∧
+    (isDone (run n s).1 = true → (run n s).2.2 = none → ∀ m, n ≤ m → run m s = run n s) ∧
+    (∀ f, (run n s).2.2 = some f → ∀ m, n ≤ m → run m s = run n s) ∧
+    (isDone (run n s).1 = true → ∀ m, run m (run n s).1 = ((run n s).1, 0, none)) :=
+  ⟨run_eq_iterStep n s, run_iter n s, fun hd hf _ hm => run_fuel hd hf hm,
+   fun _ hf _ hm => run_fuel_fault hf hm, fun hd m => run_run hd m⟩
+
+/-- Non-vacuity: fuel 5 suffices for the five-stage `nop` (5 steps), fuel 4 does not; the
+    single-stage run of `exitSim` takes 2 steps. -/
+example : isDone (run 5 (nopSim true)).1 = true ∧ (run 5 (nopSim true)).2.1 = 5 ∧
+          (run 5 (nopSim true)).2.2 = none ∧ isDone (run 4 (nopSim true)).1 = false ∧
+          isDone (run 7 (exitSim false)).1 = true ∧ (run 7 (exitSim false)).2.1 = 2 := by decide
+
+/-! ### 4. a program without instructions is done immediately -/
+
+/-- A simulation whose instruction memory holds no instruction is done as soon as its four
+    pipeline registers are empty (five-stage mode; nothing more is needed in single-stage mode) —
+    whatever pc, registers, exit code, data memory it has. In particular a new simulation is done,
+    and so is any simulation with empty pipeline registers (e.g. a new one, or one that has only
+    been loaded into) after loading a text that yields no instruction. -/
+theorem empty_done :
+    (∀ s : RSim, s.p.st.imem.prog = [] →
+      (s.five = true → s.p.l0 = none ∧ s.p.l1 = none ∧ s.p.l2 = none ∧ s.p.l3 = none) → isDone s = true) ∧
+    (∀ five hazard ms ic, isDone (fresh five hazard ms ic) = true) ∧
+    (∀ five hazard ms ic (earlier : List String) (text : String),
+      (Asm.load (loads (fresh five hazard ms ic) earlier).p.st text).st.imem.prog = [] →
+      isDone (load (loads (fresh five hazard ms ic) earlier) text).1 = true) := by
+  refine ⟨isDone_of_prog_nil, fresh_isDone, ?_⟩
+  intro five hazard ms ic earlier text hp
+  refine load_empty_done _ _ hp (fun _ => ?_)
+  obtain ⟨_, _, _, h0, h1, h2, h3, _⟩ := loads_frame (fresh five hazard ms ic) earlier
+  rw [h0, h1, h2, h3]
+  exact ⟨rfl, rfl, rfl, rfl⟩
+
+/-- Non-vacuity: the empty text and a comment-only text give an empty program, and the simulation
+    is done after loading them, in both modes. -/
+example : (Asm.load (fresh true true flat0 none).p.st "").st.imem.prog = [] ∧
+          (Asm.load (fresh false true flat0 none).p.st "# nothing\n  \n").st.imem.prog = [] ∧
+          isDone (load (fresh true true flat0 none) "").1 = true ∧
+          isDone (load (fresh false true flat0 none) "# nothing\n  \n").1 = true := by decide
+
+/-! ### 5. reload = fresh load -/
+
+/-- `load_program` after earlier loads is the load alone. For every simulation `s` (either mode,
+    any memory system, any state) and all texts:
+    (a) `load t2` after `load t1` — whether `t1` loaded, or failed in any pass, possibly after
+        writing part of its data — gives the same simulation and the same error as `load t2`;
+    (b) the same after any list of earlier loads;
+    (c) hence on a simulation that has not started — a new one after any earlier loads — the load
+        equals the load into a new simulation, and the simulation still has not started;
+    (d) a load depends on the architectural state only through its reset: two states with the
+        same `resetSt` load identically. -/
+theorem reload_fresh :
+    (∀ (s : RSim) (t1 t2 : String), load (load s t1).1 t2 = load s t2) ∧
+    (∀ (s : RSim) (earlier : List String) (t : String), load (loads s earlier) t = load s t) ∧
+    (∀ five hazard ms ic (earlier : List String) (t : String),
+      load (loads (fresh five hazard ms ic) earlier) t = load (fresh five hazard ms ic) t ∧
+      (load (loads (fresh five hazard ms ic) earlier) t).1.started = false) ∧
+    (∀ (st st' : Rv.St) (t : String), Asm.resetSt st = Asm.resetSt st' → Asm.load st t = Asm.load st' t) :=
+  ⟨load_load, load_loads,
+   fun five hazard ms ic earlier t => ⟨load_loads _ earlier t, by rw [load_loads]; rfl⟩,
+   fun _ _ t h => Asm.load_congr h t⟩
+
+/-- What a load touches: registers, pc, output, exit code, all performance counters, the mode,
+    `has_started`, the pipeline registers and the stall bookkeeping are unchanged; the instruction
+    cache is reset (counters included); the data memory is the *reset* data memory followed by
+    direct writes only (so the data-cache counters are as before the load). -/
+theorem load_frame (s : RSim) (t : String) :
+    let s' := (load s t).1
+    (s'.five = s.five ∧ s'.started = s.started ∧ s'.p.hazard = s.p.hazard ∧ s'.p.l0 = s.p.l0 ∧ s'.p.l1 = s.p.l1 ∧
+      s'.p.l2 = s.p.l2 ∧ s'.p.l3 = s.p.l3 ∧ s'.p.l4 = s.p.l4 ∧ s'.p.stalled = s.p.stalled) ∧
+    (s'.p.st.regs = s.p.st.regs ∧ s'.p.st.pc = s.p.st.pc ∧ s'.p.st.output = s.p.st.output ∧
+      s'.p.st.exitCode = s.p.st.exitCode ∧ s'.p.st.cycles = s.p.st.cycles ∧ s'.p.st.instrs = s.p.st.instrs ∧
+      s'.p.st.branches = s.p.st.branches ∧ s'.p.st.procs = s.p.st.procs ∧ s'.p.st.stalls = s.p.st.stalls ∧
+      s'.p.st.flushes = s.p.st.flushes) ∧
+    s'.p.st.imem.cache = s.p.st.imem.cache.map Rv.ICache.reset ∧
+    Asm.DirectReach s.p.st.mem.reset s'.p.st.mem ∧
+    Asm.dCounters s'.p.st.mem = Asm.dCounters s.p.st.mem := by
+  intro s'
+  obtain ⟨h1, h2, h3, h4, h5, h6, h7, h8, h9, h10, h11, h12⟩ := Asm.load_frame s.p.st t
+  exact ⟨load_frame_sim s t, ⟨h1, h2, h3, h4, h5, h6, h7, h8, h9, h10⟩, h11, h12, Asm.load_dCounters s.p.st t⟩
+
+/-- Sharpness of `reload_fresh` (c): after the simulation has run, a reload is *not* a load into a
+    new simulation — pc, counters and `has_started` persist (here after the single-stage `nop`). -/
+example : (load (run 5 (nopSim false)).1 "").1.p.st.pc = 4 ∧ (load (run 5 (nopSim false)).1 "").1.started = true ∧
+          (load (run 5 (nopSim false)).1 "").1.p.st.cycles = 1 ∧
+          (load (fresh false true flat0 none) "").1.p.st.pc = 0 := by decide
+
 end ArchSim.Props.C13
